@@ -244,3 +244,62 @@ Print Assumptions nosolution_tree_no_pair_from_store.
 Print Assumptions resolve_never_resolves_with_not_root.
 Print Assumptions nosolution_tree_collapse_never_panics_and_stays_valid.
 Print Assumptions existing_unfold.
+
+(* Composition with the solver and the reporter (Proofs/SolverReportEndToEnd.v): for every NoSolution of the solver
+   model, collapse_no_versions succeeds (never panics), keeps shared ids consistent ([collapse_unique_ids]), and the text
+   report of the COLLAPSED tree is again a sound linear proof when only existing versions are considered; every leaf of
+   the collapsed tree is equivalent, on existing versions, to a leaf of the original tree, and the top still forbids the
+   root. *)
+From Coq Require Import List NArith ZArith Bool.
+From PG Require Import Model.VS Model.Term Model.Solver Model.Registry Model.Report Proofs.VSLaws Proofs.SolverSem Proofs.SolverTree Proofs.SolverCollapse Proofs.SolverGen Proofs.SolverEndToEnd Proofs.SolverReportEndToEnd.
+Import ListNotations.
+Section C09_solver.
+  Context {VS Vr : Type} (O : VSOps VS Vr) (L : VSLawful O) (veqb : Vr -> Vr -> bool).
+  Context (reg : registry (VS := VS) (Vr := Vr)) (r : pkg) (rv : Vr).
+  Notation step := (@step VS Vr).
+  Notation event := (@event VS Vr).
+  Notation tprovider := (@tprovider VS Vr).
+
+  Theorem resolve_nosolution_collapsed_report_is_sound_proof :
+    reg_wf O L reg -> (forall a b, veqb a b = true -> a = b) ->
+    forall fuel tr t st log k,
+      WellBehaved O reg tr -> resolve O veqb fuel r rv tr = (ONoSolution t, st, log, k) ->
+      exists t' l, collapse_no_versions O t = CTree t' /\ report_steps t' = RSteps l
+        /\ (nums_of l = seq 1 (length (nums_of l)) /\ Forall (fun s : step => length (s_nums s) <= 1) l)
+        /\ (forall l1 s l2 n tr', l = l1 ++ s :: l2 -> In (n, tr') (cited (s_kind s)) ->
+              exists la s' lb, l1 = la ++ s' :: lb /\ s_nums s' = [n] /\ s_concl s' = tr'
+                               /\ forall s'', In s'' (la ++ lb ++ s :: l2) -> ~ In n (s_nums s''))
+        /\ (forall l1 s l2, l = l1 ++ s :: l2 -> is_explain s = true ->
+              (uses_prev (s_kind s) = true -> exists p, hd_error (rev l1) = Some p /\ s_kind p <> KBlank)
+              /\ entailed_on O (existing reg) (s_concl s) (premises_of O s (hd_error (rev l1))))
+        /\ incl (leaves t') (cited_exts l)
+        /\ (exists l0 s, l = l0 ++ [s] /\ s_kind s <> KBlank
+              /\ match t' with TDerived ts _ _ _ => s_concl s = ts | TExternal e => s_kind s = KOnlyExternal e end)
+        /\ (forall e', In e' (leaves t') -> exists e, In e (leaves t)
+              /\ forall a, existing reg a -> (violates O a (ext_terms O e) <-> violates O a (ext_terms O e')))
+        /\ (forall a, existing reg a -> a r = Some rv -> violates O a (node_terms O t')).
+  Proof. exact (nosolution_collapsed_report_is_sound_proof O L veqb reg r rv). Qed.
+
+  Theorem provider_nosolution_collapsed_report_is_sound_proof :
+    reg_wf O L reg ->
+    (forall a b, veqb a b = true -> a = b) -> (forall v, veqb v v = true) -> (forall s, vs_eqb O s s = true) ->
+    forall (pg : tprovider) fuel res tr t,
+      serves O reg pg -> resolve_g O veqb pg fuel r rv = (res, tr) -> fst (fst (fst res)) = ONoSolution t ->
+      exists t' l, collapse_no_versions O t = CTree t' /\ report_steps t' = RSteps l
+        /\ (nums_of l = seq 1 (length (nums_of l)) /\ Forall (fun s : step => length (s_nums s) <= 1) l)
+        /\ (forall l1 s l2 n tr', l = l1 ++ s :: l2 -> In (n, tr') (cited (s_kind s)) ->
+              exists la s' lb, l1 = la ++ s' :: lb /\ s_nums s' = [n] /\ s_concl s' = tr'
+                               /\ forall s'', In s'' (la ++ lb ++ s :: l2) -> ~ In n (s_nums s''))
+        /\ (forall l1 s l2, l = l1 ++ s :: l2 -> is_explain s = true ->
+              (uses_prev (s_kind s) = true -> exists p, hd_error (rev l1) = Some p /\ s_kind p <> KBlank)
+              /\ entailed_on O (existing reg) (s_concl s) (premises_of O s (hd_error (rev l1))))
+        /\ incl (leaves t') (cited_exts l)
+        /\ (exists l0 s, l = l0 ++ [s] /\ s_kind s <> KBlank
+              /\ match t' with TDerived ts _ _ _ => s_concl s = ts | TExternal e => s_kind s = KOnlyExternal e end)
+        /\ (forall e', In e' (leaves t') -> exists e, In e (leaves t)
+              /\ forall a, existing reg a -> (violates O a (ext_terms O e) <-> violates O a (ext_terms O e')))
+        /\ (forall a, existing reg a -> a r = Some rv -> violates O a (node_terms O t')).
+  Proof. exact (resolve_g_nosolution_collapsed_report_is_sound_proof O L veqb reg r rv). Qed.
+End C09_solver.
+Print Assumptions resolve_nosolution_collapsed_report_is_sound_proof.
+Print Assumptions provider_nosolution_collapsed_report_is_sound_proof.
